@@ -209,6 +209,10 @@ def gen_args(rng, cmd, nf, fz, env):
         r = rng.random()
         if r < 0.5:
             t, f = distinct_lattice(rng, 2)
+            if r < 0.08:
+                # the settings under which the conversion is the identity (or a sign flip) on [-1, 1]: a tempting
+                # shortcut (seeded change C09-i1); no extra draw, so other scenarios keep their streams
+                t, f = (1, -1) if r < 0.05 else (-1, 1)
             args["TrueThreshold"], args["FalseThreshold"] = t, f
         elif r < 0.65:
             args["TrueThreshold"] = lattice(rng)
